@@ -5,7 +5,8 @@ out_progress3.txt -- whichever exist -- and returns (every key always present, n
   json     {present, valid (json.loads succeeded and gave a list), features: [{el, status, els: [{type, el, status,
             steps: [{pos, match, status}]}]}]}      el = abstract id at the element's `location` (0 = nothing starts
             there), status "" = key absent or null; step pos = abstract position in its scenario via the `fbg k` /
-            `rbg k` / `own k` text (0 = unknown); for a background element pos = k of its own text.
+            `rbg k` / `own k` text (0 = unknown); for a background element pos = index of the step in the element
+            (its text may carry outline placeholders).
   readback {done, parse_exc (exception type of behave.json_parser.parse(file)), exc (exception type of
             JsonParser().parse_features(json.load(..))), line_is_text (feature.line of the returned model is no int, so
             str(feature.location) raises), features: [{el, scens: [{el, npre, steps: [{pos, status}]}]}]}
@@ -79,11 +80,6 @@ class _Map(object):
                 return i + 1
         return 0
 
-    @staticmethod
-    def own_k(name):
-        m = _NAME.search(name or "")
-        return int(m.group(2)) if m else 0
-
     def scen(self, name):
         return self.name2el.get((name or "").strip(), 0)
 
@@ -112,9 +108,9 @@ def _json(path, M):
             typ = x.get("type", "")
             el = 0 if typ == "background" else M.loc(x.get("location", ""))
             steps = []
-            for s in x.get("steps", []):
+            for k, s in enumerate(x.get("steps", [])):
                 res = s.get("result") or {}
-                steps.append({"pos": M.own_k(s.get("name")) if typ == "background" else M.pos(el, s.get("name")),
+                steps.append({"pos": k + 1 if typ == "background" else M.pos(el, s.get("name")),
                               "match": "match" in s, "status": res.get("status") or ""})
             fe["els"].append({"type": typ, "el": el, "status": x.get("status") or "", "steps": steps})
         out["features"].append(fe)
